@@ -323,12 +323,12 @@ impl Decoder for DownlinkOperationDecoder {
     fn decode(&mut self, src: &mut bytes::BytesMut) -> Result<Option<Self::Item>, Self::Error> {
         if src.remaining() >= LEN_SIZE {
             let len = src.as_ref().get_u64() as usize;
-            if src.remaining() >= len + LEN_SIZE {
+            if src.remaining() - LEN_SIZE >= len {
                 src.advance(LEN_SIZE);
                 let body = src.split_to(len).freeze();
                 Ok(Some(DownlinkOperation { body }))
             } else {
-                src.reserve(LEN_SIZE + len);
+                src.reserve(LEN_SIZE.saturating_add(len));
                 Ok(None)
             }
         } else {
